@@ -148,6 +148,37 @@ pub fn op_cmp(p: &Pointer, q: &Pointer) -> String {
         law_hash.ck(h::<&Pointer>(&p) == hs, "ref_pointer_hash_ne_str_hash");
         law_hash.ck(h::<Pointer>(p) == hs, "pointer_hash_ne_str_hash");
         law_hash.ck(h::<PointerBuf>(&pb) == hs, "pointerbuf_hash_ne_str_hash");
+        // "hash identically" is a statement about every `Hasher` (that is what `Borrow` promises to hashed collections):
+        // a word-at-a-time hasher in the style of FxHash/ahash treats `write(&[b])` and `write_u8(b)` differently and mixes
+        // slice lengths in, so the three must drive a hasher through the same calls, not merely the same byte stream
+        #[derive(Default)]
+        struct WordHasher(u64);
+        impl std::hash::Hasher for WordHasher {
+            fn finish(&self) -> u64 {
+                self.0
+            }
+            fn write(&mut self, bytes: &[u8]) {
+                self.0 = (self.0.rotate_left(5) ^ (bytes.len() as u64)).wrapping_mul(0x517c_c1b7_2722_0a95);
+                for b in bytes {
+                    self.0 = (self.0.rotate_left(5) ^ u64::from(*b)).wrapping_mul(0x517c_c1b7_2722_0a95);
+                }
+            }
+            fn write_u8(&mut self, i: u8) {
+                self.0 = (self.0.rotate_left(7) ^ u64::from(i) ^ 0x9e37_79b9).wrapping_mul(0x2545_f491_4f6c_dd1d);
+            }
+        }
+        fn hw<T: Hash + ?Sized>(t: &T) -> u64 {
+            let mut s = WordHasher::default();
+            t.hash(&mut s);
+            std::hash::Hasher::finish(&s)
+        }
+        let hws = hw::<str>(pt);
+        law_hash.ck(hw::<&Pointer>(&p) == hws, "ref_pointer_hash_ne_str_hash_under_a_word_hasher");
+        law_hash.ck(hw::<Pointer>(p) == hws, "pointer_hash_ne_str_hash_under_a_word_hasher");
+        law_hash.ck(hw::<PointerBuf>(&pb) == hws, "pointerbuf_hash_ne_str_hash_under_a_word_hasher");
+        let mut hm: std::collections::HashMap<PointerBuf, u8, std::hash::BuildHasherDefault<WordHasher>> = Default::default();
+        hm.insert(pb.clone(), 1);
+        law_hash.ck(hm.get(p) == Some(&1), "word_hasher_map_lookup_by_ref_pointer");
     }
 
     let mut law_maps = Law::new();
